@@ -36,7 +36,9 @@ claim("C03", "abstract interpretation of the CasmBuilder API over MIR paths (def
       "by a hint is subsequently used by a constraint-bearing instruction (a real equation, a write to a builtin buffer, or the condition of "
       "a conditional jump) before it can reach a result; integer-witness outputs (DivMod, WideMul128, SquareRoot, Uint256DivMod, "
       "Uint512DivModByUint256, Uint256SquareRoot, U256InvModN, LinearSplit) additionally reach a range-check write directly or through "
-      "derived values, are determined by an equation over pinned values, or leave the libfunc inside a guarantee." + DECIDES +
+      "derived values, are determined by an equation over pinned values, or leave the libfunc inside a guarantee; both successors of a jump "
+      "on a boolean hint output are validated; no CASM variable is written to the range-check buffer twice along a path (a re-check bounds "
+      "nothing, the quantity it was meant for is unchecked)." + DECIDES +
       " Whether the constraints are arithmetically sufficient (bounds, wrap-around, which algorithm is sound for which ranges) and the "
       "hint implementations in the runner are not decided.",
       "trusted: rustc MIR, fact dumper, the CasmBuilder model in rules/casm_abs.py; range-check pointers are recognised by the builders' naming convention",
@@ -86,7 +88,8 @@ claim("C12", "type-resolved who-may-call over all workspace MIR + enumerated tab
 claim("C08", "path rules on MIR (guard obligations on the demand-analysis callbacks) + gate propagation over the call graph",
       "Second sentence of C08 only: whenever the borrow checker's demand analysis meets a second use of a variable or an undemanded "
       "variable, the reporter callback is reached on every path; the callbacks report VariableMoved / VariableNotDropped / "
-      "DesnappingANonCopyableType unless copy / drop / destruct / panic-destruct applies with the right impl-function pairing; and every call "
+      "DesnappingANonCopyableType unless copy / drop / destruct / panic-destruct applies with the right impl-function pairing; the analyzer "
+      "introduces every statement's outputs, uses its inputs and merges with the panic branch at every panicable call under no further condition; and every call "
       "leading to a Sierra-program query is dominated by the success edge of the diagnostics gate (ensure / ensure_diagnostics / !check) or "
       "lies in a function all of whose callers are, except documented-precondition entry points." + DECIDES +
       " Totality of the back end on error-free programs (first sentence) is not decided.",
